@@ -23,24 +23,27 @@ S_foo == <<102, 111, 111>>
 S_hat_a == <<94, 97>>
 S_pct == <<37, 115>>          \* "%s"
 S_brace == <<123, 48, 125>>   \* "{0}"
+NullChars == Arr(<<Str(<<110>>), Str(<<117>>), Str(<<108>>), Str(<<108>>)>>)
 Shapes ==
   { JNull, JTrue, JFalse, N0, N1, NM1, N2, F15, F1, HUGE, FBIG,
     Str(<<>>), Str(S_a), Str(S_hat_a), Str(T_integer), Str(T_any), Str(S_foo),
     Arr(<<>>), Arr(<<EmptyObj>>), Arr(<<EmptyObj, EmptyObj>>), Arr(<<JTrue>>), Arr(<<Str(S_a)>>),
     Arr(<<Str(S_a), Str(S_b)>>), Arr(<<Str(S_a), Str(S_a)>>), Arr(<<N1>>), Arr(<<Str(T_integer), Str(T_string)>>),
     EmptyObj, Obj1(S_a, EmptyObj), Obj1(S_a, JTrue), Obj1(S_a, Arr(<<Str(S_b)>>)), Obj1(S_a, Str(S_b)), Obj1(S_a, N1), TInt,
+    \* the characters of a type name, one string each: an array, not the string "null"
+    NullChars,
     \* two members that are equal JSON values spelt differently (1 and 1.0 inside): duplicates for uniqueItems
     Arr(<<Obj1(K_minimum, N1), Obj1(K_minimum, F1)>>),
     \* names that are hostile to message formatting: "%s", "{0}"
     Obj1(S_pct, Arr(<<Str(S_b)>>)), Obj1(S_pct, EmptyObj), Arr(<<Str(S_pct), Str(S_brace)>>), Obj1(S_brace, Arr(<<Str(S_pct)>>)) }
-SmallShapes == { JNull, JTrue, JFalse, N0, N1, F15, HUGE, Str(<<>>), Str(S_a), Arr(<<>>), Arr(<<Str(S_a)>>), Arr(<<EmptyObj>>),
+SmallShapes == { JNull, JTrue, JFalse, N0, N1, F15, F1, HUGE, Str(<<>>), Str(S_a), Arr(<<>>), Arr(<<Str(S_a)>>), Arr(<<EmptyObj>>),
                  EmptyObj, Obj1(S_a, EmptyObj), Obj1(S_a, Arr(<<Str(S_b)>>)), TInt,
                  Obj1(S_pct, Arr(<<Str(S_b)>>)), Obj1(S_pct, EmptyObj), Arr(<<Str(S_pct), Str(S_brace)>>),
-                 Arr(<<Obj1(K_minimum, N1), Obj1(K_minimum, F1)>>) }
+                 Arr(<<Obj1(K_minimum, N1), Obj1(K_minimum, F1)>>), NullChars }
 ShapePool == IF ShapeSel = "all" THEN Shapes ELSE SmallShapes
 
 \* every keyword name of the draft's vocabulary, the boolean exclusive* of drafts 3/4, then/else, required of draft 3
-ShapeKws(d) == (Keywords(d) \ {K_d_ref, K_format})
+ShapeKws(d) == (Keywords(d) \ {K_d_ref})
                \cup (IF d <= 4 THEN {K_exclusiveMinimum, K_exclusiveMaximum} ELSE {})
                \cup (IF d = 7 THEN {K_then, K_else} ELSE {})
                \cup (IF d = 3 THEN {K_required} ELSE {})
